@@ -315,7 +315,7 @@ func (r *Run) Finish(t Failer) {
 		"level":       r.Level,
 		"coverage":    cov,
 		"assumptions": r.assumptions,
-		"wall_s":      time.Since(r.start).Seconds(),
+		"wall_s":      wallSeconds(r.start),
 		"violations":  r.violations,
 	}
 	if ev["assumptions"] == nil {
@@ -342,7 +342,7 @@ func (r *Run) Finish(t Failer) {
 		}
 	}
 	fmt.Fprintf(os.Stdout, "SUMMARY property=%s tier=%s seed=%d evaluations=%d distinct=%d violations=%d known=%d wall=%.1fs\n",
-		r.ID, r.tier, r.seed, evals, distinct, violations, len(knownSeen), time.Since(r.start).Seconds())
+		r.ID, r.tier, r.seed, evals, distinct, violations, len(knownSeen), wallSeconds(r.start))
 	if violations > 0 {
 		exitCode.Store(1)
 		t.Errorf("%d violation(s)", violations)
@@ -363,6 +363,14 @@ func (r *Run) Finish(t Failer) {
 		}
 		t.Errorf("empty run")
 	}
+}
+
+// wallSeconds is the elapsed real time; inside a synctest bubble the clock is virtual (year 2000), in which case 0 is reported.
+func wallSeconds(start time.Time) float64 {
+	if w := time.Since(start).Seconds(); w > 0 {
+		return w
+	}
+	return 0
 }
 
 var exitCode atomic.Int32
